@@ -276,7 +276,7 @@ Proof. intros H. unfold f_select. rewrite H. reflexivity. Qed.
 Lemma check_sound c : (forall n args o, c = CFlat n args o -> has_model n = true /\ oracle_ok n o) ->
   C08_check c (predict c) = true.
 Proof.
-  destruct c as [n args o|vs| |]; intros H; [|cbn [predict]; destruct (range_class vs) as [|[[q|q|]|[q|q|]|]]; reflexivity|reflexivity|reflexivity].
+  destruct c as [n args o|vs| |m idx|]; intros H; [|cbn [predict]; destruct (range_class vs) as [|[[q|q|]|[q|q|]|]]; reflexivity|reflexivity|reflexivity|reflexivity].
   destruct (H n args o eq_refl) as [Hm Ho]. cbn [predict].
   destruct (has_model_eval n args o Hm) as [r E]. rewrite E.
   pose proof (eval_name_total n args o r Ho E). destruct r; [reflexivity|contradiction].
@@ -342,3 +342,16 @@ Qed.
 Theorem range_bounded start stop incr l :
   range_capped start stop incr = Some l -> (Z.of_nat (List.length l) <= maxRangeElements)%Z.
 Proof. unfold range_capped. apply range_c_bounded; [reflexivity|vm_compute; discriminate]. Qed.
+
+(* ------------------------------------------------------------------ accumulator contexts *)
+(* the repaired loops call Splitter.Next at most once per field of the sample, whatever index the template names *)
+Theorem acc_rounds_bounded m idx : (0 <= acc_rounds m idx <= Z.of_nat (List.length (acc_fields m)))%Z.
+Proof. unfold acc_rounds. lia. Qed.
+Theorem acc_get_match_outside m idx :
+  (idx < 0 \/ Z.of_nat (List.length (acc_fields m)) < idx)%Z -> acc_get_match m idx = [].
+Proof.
+  intros H. unfold acc_get_match, field_at.
+  destruct (idx =? 0)%Z eqn:E; [apply Z.eqb_eq in E; lia|].
+  replace ((idx - 1 <? 0) || (Z.of_nat (List.length (acc_fields m)) <=? idx - 1))%Z with true; [reflexivity|].
+  symmetry. apply orb_true_iff. destruct H; [left; apply Z.ltb_lt; lia|right; apply Z.leb_le; lia].
+Qed.
